@@ -240,9 +240,43 @@ def timestamps_bounded(tier='quick', seed=0, known=()):
                     viol.append({'case': {'epoch': ep, 'utc_offset_minutes': off, 'field': name}, 'what': why})
         if len(samples) < 3:
             samples.append({'epoch': ep, 'octets': ep.to_bytes(4, 'big').hex()})
-    return {'name': 'C09/four-octet-timestamps', 'bound': '%d epochs (boundaries + seeded) x UTC offsets %s x 3 fields' % (len(epochs), offsets), 'cases': cases,
+    # the same fields in processes whose LOCAL time zone is not UTC, with aware datetimes and with naive ones (which PGPy reads as UTC, as
+    # its own tests do): the octets are those of the instant and do not depend on the zone of the machine
+    import multiprocessing
+    zones = ['Asia/Kolkata', 'America/New_York', 'Pacific/Kiritimati'] if tier == 'quick' else ['Asia/Kolkata', 'America/New_York', 'Pacific/Kiritimati', 'Europe/Berlin', 'Pacific/Pago_Pago']
+    ctx = multiprocessing.get_context('fork')
+    with ctx.Pool(len(zones)) as pool:
+        for zname, n, zviol in pool.map(_timestamps_in_zone, [(z, epochs[:8] + epochs[8:20]) for z in zones], chunksize=1):
+            cases += n
+            viol += zviol[:max(0, 5 - len(viol))]
+    return {'name': 'C09/four-octet-timestamps', 'bound': '%d epochs (boundaries + seeded) x UTC offsets %s x 3 fields; 20 of the epochs again, aware and naive, in processes whose '
+            'local zone is %s' % (len(epochs), offsets, ', '.join(zones)), 'cases': cases,
             'distinct_nontrivial': len(set(epochs)) * (len(offsets) - 1), 'rule': 'one case per (epoch, offset, field); non-trivial = non-UTC offset', 'exhaustive': False,
             'samples': samples, 'violations': viol, 'known_hits': []}
+
+
+def _timestamps_in_zone(arg):
+    zname, epochs = arg
+    import os, time
+    from datetime import datetime, timezone, timedelta
+    os.environ['TZ'] = zname
+    time.tzset()
+    n, viol = 0, []
+    for ep in epochs:
+        aware = datetime.fromtimestamp(ep, timezone.utc)
+        naive = aware.replace(tzinfo=None)              # the UTC reading without a zone, as datetime.utcnow() / a literal datetime(...) gives
+        want = ep.to_bytes(4, 'big')
+        for kind, d in (('aware', aware), ('aware, other offset', aware.astimezone(timezone(timedelta(hours=9)))), ('naive (UTC reading)', naive)):
+            for name, mk in (('PubKeyV4.created', lambda: _pk(d)), ('LiteralData.mtime', lambda: _lit(d)), ('CreationTime', lambda: _ct(d))):
+                n += 1
+                try:
+                    got, back = mk()
+                    why = None if (got == want and back == ep) else '%s: octets %s, want %s; decoded %r' % (name, got.hex(), want.hex(), back)
+                except Exception as ex:
+                    why = '%s: exception %r' % (name, ex)
+                if why and len(viol) < 3:
+                    viol.append({'case': {'epoch': ep, 'datetime': kind, 'local_zone_of_the_process': zname, 'field': name}, 'what': why + ' [process zone %s, %s datetime]' % (zname, kind)})
+    return zname, n, viol
 
 
 def _pk(d):
